@@ -365,6 +365,10 @@ def run(ck):
         for e in ESCAPES:
             add(h.format("(%s)" % e) if h != "{}" else e, "corpus")
             add(h.format(e), "corpus")
+    # texts of several lines (what a YAML block scalar gives), invalid however the lines are joined; and valid ones
+    for s_ in ("x *\n* 2", "import os\nos.system('id')", "x = 1\nx", "def f():\n    return open('/etc/passwd')\nf()", "x if\nelse 2",
+               "x +\n", "\n\nx +* y\n", "x\ny", "(x +\n y)", "x + (\n  y\n)", "  x", "x\n", "lambda:\n x"):
+        add(s_, "multiline")
     n_built = 0
     for node in itertools.chain(depth2(thorough), depth3(thorough, rng, 1.0 if thorough else 0.25)):
         n_built += 1
@@ -382,8 +386,11 @@ def run(ck):
             tree = ast.parse(s, mode="eval")
         except (SyntaxError, ValueError, RecursionError):
             syntax_rejected += 1
-            acc, _ = impl_accept(s)
-            if acc:
+            acc, fn_ = impl_accept(s)
+            if isinstance(fn_, Exception):
+                ck.fail_input("C11:rejected-with-non-expression-error:%s:unparsable-text" % type(fn_).__name__,
+                              "compile() of text Python cannot parse raised %s instead of ExpressionError" % type(fn_).__name__, {"expr": s, "names": NAMES})
+            elif acc:
                 ck.fail_input("C11:accepted-unparsable", "compile accepted text Python cannot parse", {"expr": s})
             continue
         for n in ast.walk(tree):
